@@ -692,3 +692,131 @@ Proof.
     destruct (Z.ltb_spec (64 + (sum_len l - 64)) (sum_len l)); [lia|]. rewrite E. reflexivity.
   - rewrite E. reflexivity.
 Qed.
+
+(* ------------------------------------------------------------------ *)
+(* G. getters: total and consistent with the reference                 *)
+
+Lemma skipn_nth n : forall l : list opt, (n < length l)%nat ->
+  skipn n l = nth n l zero_opt :: skipn (S n) l.
+Proof.
+  induction n as [|n IH]; intros [|x l] H; cbn [length] in H; try lia; [reflexivity|].
+  cbn [skipn nth]. rewrite IH by lia. reflexivity.
+Qed.
+Lemma drop_cons l i : 0 <= i < len l -> drop l i = nthz l i :: drop l (i + 1).
+Proof.
+  intros H. unfold drop, nthz. destruct (Z.ltb_spec i 0); [lia|].
+  replace (Z.to_nat (i + 1)) with (S (Z.to_nat i)) by lia. apply skipn_nth. unfold len in H. lia.
+Qed.
+
+Lemma collect_spec {B} (f : opt -> B) l rlen : forall k i j acc,
+  0 <= i -> i + Z.of_nat k <= len l -> 0 <= j -> j + Z.of_nat k <= rlen ->
+  collect k l i j rlen f acc = Ok (acc ++ map f (take (drop l i) (Z.of_nat k))).
+Proof.
+  induction k as [|k IH]; intros i j acc Hi Hk Hj Hr.
+  - cbn [collect]. unfold take. cbn. rewrite app_nil_r. reflexivity.
+  - cbn [collect]. unfold idx. destruct (Z.leb_spec 0 i); [|lia]. destruct (Z.ltb_spec i (len l)); [|lia].
+    cbn [andb]. destruct (Z.ltb_spec j rlen); [|lia]. rewrite IH by lia.
+    rewrite (drop_cons l i) by lia. unfold take. replace (Z.to_nat (Z.of_nat (S k))) with (S (Z.to_nat (Z.of_nat k))) by lia.
+    cbn [firstn map]. rewrite <- app_assoc. reflexivity.
+Qed.
+
+Lemma ref_parts l id a c : split3 l id a c ->
+  filter (fun x => oid x =? id) l = take (drop l a) (c - a) /\
+  filter (fun x => oid x <? id) l = take l a.
+Proof.
+  intros H. pose proof H as (H1 & H2 & H3 & _).
+  assert (E : l = take l a ++ take (drop l a) (c - a) ++ drop l c).
+  { rewrite <- (take_drop l a) at 1. rewrite <- (take_drop (drop l a) (c - a)) at 1.
+    rewrite drop_drop by lia. replace (a + (c - a)) with c by lia. reflexivity. }
+  split; rewrite E at 1; rewrite !filter_app.
+  - rewrite (filter_none _ (take l a)), (filter_all _ (take (drop l a) (c - a))), (filter_none _ (drop l c)).
+    + rewrite app_nil_r. reflexivity.
+    + eapply Forall_impl; [|apply (split3_hi l id a c H)]. cbv beta. intros x Hx. apply Z.eqb_neq. lia.
+    + eapply Forall_impl; [|apply (split3_mid l id a c H)]. cbv beta. intros x Hx. apply Z.eqb_eq. lia.
+    + eapply Forall_impl; [|apply (split3_lo l id a c H)]. cbv beta. intros x Hx. apply Z.eqb_neq. lia.
+  - rewrite (filter_all _ (take l a)), (filter_none _ (take (drop l a) (c - a))), (filter_none _ (drop l c)).
+    + rewrite !app_nil_r. reflexivity.
+    + eapply Forall_impl; [|apply (split3_hi l id a c H)]. cbv beta. intros x Hx. apply Z.ltb_ge. lia.
+    + eapply Forall_impl; [|apply (split3_mid l id a c H)]. cbv beta. intros x Hx. apply Z.ltb_ge. lia.
+    + eapply Forall_impl; [|apply (split3_lo l id a c H)]. cbv beta. intros x Hx. apply Z.ltb_lt. lia.
+Qed.
+
+Lemma len_map {A B} (f : A -> B) l : len (map f l) = len l.
+Proof. unfold len. rewrite map_length. reflexivity. Qed.
+
+(* the block of options numbered id, as the model's Find sees it *)
+Lemma find_ref l id : sorted l -> exists a c, split3 l id a c /\
+  find l id = (if a <? c then Some (a, c) else None) /\
+  ref_values id l = map oval (take (drop l a) (c - a)) /\
+  ref_count id l = c - a /\ ref_before id l = a.
+Proof.
+  intros Hs. destruct (ops_splice l id Hs) as (a & c & H & _ & _ & _ & Hf).
+  exists a, c. destruct (ref_parts l id a c H) as [E1 E2]. pose proof H as (H1 & H2 & H3 & _).
+  unfold ref_count, ref_before, ref_values. rewrite E1, E2, len_map.
+  rewrite !len_take by (rewrite ?len_drop; lia). refine (conj H (conj Hf (conj eq_refl (conj eq_refl eq_refl)))).
+Qed.
+
+Theorem find_refines l id : sorted l -> find l id = ref_find id l /\ has_option l id = ref_has id l.
+Proof.
+  intros Hs. destruct (find_ref l id Hs) as (a & c & H & Hf & Hv & Hc & Hb).
+  unfold has_option, ref_find, ref_has. rewrite Hf, Hc, Hb.
+  destruct (Z.ltb_spec a c); destruct (Z.ltb_spec 0 (c - a)); try lia; split; try reflexivity.
+  repeat f_equal. lia.
+Qed.
+
+Definition first_answer {B} (f : list Z -> B) (d : B) (id : Z) (l : list opt) : res (Z * B) :=
+  match ref_first id l with None => Ok (ENotFound, d) | Some v => Ok (ENone, f v) end.
+
+Lemma first_refines {B} (f : list Z -> B) d l id : sorted l ->
+  match find l id with
+  | None => Ok (ENotFound, d)
+  | Some (fi, _) => match idx l fi with Panic => Panic | Ok o => Ok (ENone, f (oval o)) end
+  end = first_answer f d id l.
+Proof.
+  intros Hs. destruct (find_ref l id Hs) as (a & c & H & Hf & Hv & Hc & Hb).
+  pose proof H as (H1 & H2 & H3 & _). unfold first_answer, ref_first. rewrite Hf, Hv.
+  destruct (Z.ltb_spec a c).
+  - unfold idx. destruct (Z.leb_spec 0 a); [|lia]. destruct (Z.ltb_spec a (len l)); [|lia]. cbn [andb].
+    rewrite (drop_cons l a) by lia. unfold take. replace (Z.to_nat (c - a)) with (S (Z.to_nat (c - a - 1))) by lia.
+    cbn [firstn map]. reflexivity.
+  - replace (c - a) with 0 by lia. reflexivity.
+Qed.
+
+Theorem get_bytes_refines l id : sorted l -> get_bytes l id = first_answer (fun v => v) [] id l.
+Proof. intros Hs. unfold get_bytes. apply (first_refines (fun v => v) [] l id Hs). Qed.
+Theorem get_uint32_refines l id : sorted l -> get_uint32 l id = first_answer ref_uint 0 id l.
+Proof. intros Hs. unfold get_uint32. apply (first_refines ref_uint 0 l id Hs). Qed.
+
+(* multi-value getters with a result slice of rlen elements *)
+Definition multi_answer {B} (f : list Z -> B) (id rlen : Z) (l : list opt) : res (Z * Z * list B) :=
+  if ref_has id l then
+    if rlen <? ref_count id l then Ok (ref_count id l, ETooSmall, [])
+    else Ok (ref_count id l, ENone, map f (ref_values id l))
+  else Ok (0, ENotFound, []).
+
+Theorem get_multi_refines {B} (f : list Z -> B) l id rlen : sorted l ->
+  get_multi (fun o => f (oval o)) l id rlen = multi_answer f id rlen l.
+Proof.
+  intros Hs. destruct (find_ref l id Hs) as (a & c & H & Hf & Hv & Hc & Hb).
+  pose proof H as (H1 & H2 & H3 & _). unfold get_multi, multi_answer, ref_has. rewrite Hf, Hv, Hc.
+  destruct (Z.ltb_spec a c); destruct (Z.ltb_spec 0 (c - a)); try lia; [|reflexivity].
+  destruct (Z.ltb_spec rlen (c - a)); [reflexivity|].
+  rewrite collect_spec by lia. cbn [app]. rewrite Z2Nat.id by lia.
+  rewrite len_map, len_take by (rewrite len_drop; lia). rewrite map_map. reflexivity.
+Qed.
+
+Theorem getters_total l id rlen : sorted l ->
+  get_bytes l id <> Panic /\ get_uint32 l id <> Panic /\ get_media l id <> Panic /\
+  get_uint32s l id rlen <> Panic /\ get_strings l id rlen <> Panic /\ get_bytess l id rlen <> Panic.
+Proof.
+  intros Hs.
+  assert (G1 := get_bytes_refines l id Hs). assert (G2 := get_uint32_refines l id Hs).
+  assert (G3 := get_multi_refines ref_uint l id rlen Hs).
+  assert (G4 := get_multi_refines (fun v => v) l id rlen Hs).
+  unfold get_media, get_uint32s, get_strings, get_bytess.
+  change (fun o : opt => decode_uint32 (oval o)) with (fun o : opt => ref_uint (oval o)).
+  change oval with (fun o : opt => (fun v : list Z => v) (oval o)).
+  rewrite G1, G2, G3, G4. unfold first_answer, multi_answer.
+  destruct (ref_first id l); destruct (ref_has id l); destruct (rlen <? ref_count id l);
+  cbn iota beta; repeat split; discriminate.
+Qed.
